@@ -72,6 +72,11 @@ func genFault(rt *rapid.T) fault {
 	case "code_oob":
 		f.Code = rapid.SampledFrom([]int{17, 99, 1 << 20}).Draw(rt, "code")
 	}
+	if f.Source == "selector" && f.Kind == "eof" {
+		// known finding c24.selector_eof_passthrough (unit selector_eof): excluded
+		// by construction so that the search goes on
+		f.Kind = "ueof"
+	}
 	f.When = rapid.IntRange(0, 2).Draw(rt, "when")
 	f.Unary = rapid.IntRange(0, 2).Draw(rt, "unary") == 0
 	f.WFR = rapid.IntRange(0, 3).Draw(rt, "wfr") == 0
@@ -486,6 +491,24 @@ func runInBubble(p plan) vk.Result {
 		publish()
 	}
 	return result("", nontrivial)
+}
+
+// The one failing shape found so far, as its own enumerated unit carrying the
+// signature c24.selector_eof_passthrough: a ConfigSelector that returns io.EOF
+// makes Invoke / NewStream return the bare io.EOF (newClientStream passes the
+// selector's error through toRPCErr, which keeps io.EOF).
+func TestVerifC24SelectorEOF(t *testing.T) {
+	var plans []plan
+	for _, unary := range []bool{true, false} {
+		for _, wfr := range []bool{false, true} {
+			plans = append(plans, plan{RPCs: []fault{{Source: "selector", Kind: "eof", Unary: unary, WFR: wfr, NSend: 1}}})
+		}
+	}
+	vk.Enumerate(t, vk.Unit[plan]{
+		ID: "C24", Name: "selector_eof",
+		Rule: "enumerated: ConfigSelector returns io.EOF for a unary / streaming, fail-fast / wait-for-ready RPC (4 plans); all non-trivial",
+		Run:  run,
+	}, plans)
 }
 
 func TestVerifC24Errors(t *testing.T) {
